@@ -525,6 +525,12 @@ func (s *hybridSearch) WithFusionKind(kind FusionKind) HybridSearch {
 // 3. Perform text search (if configured) on candidate IDs
 // 4. Combine and aggregate results using fusion strategy
 func (s *hybridSearch) Execute() ([]HybridSearchResult, error) {
+	// A search sees the index between two writes, never in the middle of one:
+	// AddWithID on a live ID removes the old document from every sub-index before
+	// it adds the new one, and a search that ran in between missed the document.
+	s.index.mu.RLock()
+	defer s.index.mu.RUnlock()
+
 	// Step 1: Get candidate IDs from metadata filtering
 	var candidateIDs []uint32
 	if len(s.metadataFilters) > 0 || len(s.metadataGroups) > 0 {
